@@ -97,7 +97,7 @@ macro_rules! axle_oob {
             // never reached: the index check panics before any memory is touched (should_panic also requires that
             // no memory-safety check fails)
             kani::cover!(true, "unreach: returned normally");
-            let _ = r.try_borrow_mut().is_ok();
+            let _ = r;
         }
     };
 }
